@@ -487,11 +487,11 @@ func (e *emitter) execLine(line string) error {
 			e.emit(prefix, "conn", cs, obs, "corpus")
 		}
 	case "relay":
-		mode, ds, err := parseRelayToks(toks)
+		mode, dns, ds, err := parseRelayToks(toks)
 		if err != nil {
 			return err
 		}
-		cs, obs := execRelay(mode, ds)
+		cs, obs := execRelay(mode, dns, ds)
 		e.emit(prefix, "relay-"+mode, cs, obs, "corpus")
 	default:
 		return errors.New("unknown mode " + toks[0])
